@@ -848,6 +848,7 @@ func main() {
 	shared := buildSharedCases(r)
 	values := buildValueCases(r)
 	panics := buildPanicCases(r)
+	ctxviews := buildCtxviewCases(r)
 	sampleStride = len(cases)/4 + 1
 	workers := 8
 	ch := make(chan func())
@@ -860,6 +861,10 @@ func main() {
 				job()
 			}
 		}()
+	}
+	for _, vc := range ctxviews {
+		vc := vc
+		ch <- func() { runCtxviewCase(r, vc) }
 	}
 	for _, vc := range values {
 		vc := vc
@@ -925,6 +930,7 @@ func main() {
 	}
 
 	requireValues(r)
+	requireCtxview(r)
 
 	r.Finish("chains over {pass P, modify-request Q, modify-result R, short-circuit result S, short-circuit JSON-RPC error E, fail F}: thorough = all 1555 of length 0..4, quick = all 43 of length <= 2 plus 150 seeded of length 3..4; "+
 		"x server kinds {S-json, S-sse, L-sse} x methods {tools/call with every option form; tools/list, ping, prompts/get with rotating forms} x option forms {single WithMiddleware(a,b,..), one option per middleware, split 2+rest; none/empty for length 0} (WithSSEMiddleware on the legacy server); "+
@@ -933,7 +939,11 @@ func main() {
 		"plus scenario rewrite: chains over the ten behaviours (the six + I params rewritten in place, M method rewritten on a copy, N method rewritten in place, W whole new request object) with at least one of I/M/N/W "+
 		"(quick: all of length <= 2 plus 120 seeded of length 3..4; thorough: all of length <= 3 plus 600 seeded of length 4) x kinds x rotating rewrite plans (alias>known, known>known, known>unknown, unknown>unknown, two-step, same). "+
 		"Notifications posted after the requests include ones named like requests (tools/call, x-vendor/do, logging/setLevel). Per case 8 (thorough: 16) concurrent requests from 2 (4) raw sessions held together at a gate inside one middleware, then custom and roots notifications. "+
-		"A case is distinct by (scenario, kind, chain, method, form) and counts when trace and wire answer of a request matched the reference interpreter.",
+		"A case is distinct by (scenario, kind, chain, method, form) and counts when trace and wire answer of a request matched the reference interpreter. "+
+			"Plus scenario ctxview: pass-through chains of length 1..4 (option forms rotating; thorough: every form) on all six HTTP configurations {S-json, S-sse, SL-json, SL-sse, S-nosession, L-sse} with two HTTP context functions and the three list filters; "+
+			"per server 2 (3) raw peers send {tools/call, prompts/get, resources/read, tools/list, prompts/list, resources/list, ping, x-vendor/do} one after the other and then all at once (held together inside one middleware), every request with its own header token; "+
+			"every middleware (before and after next) and the innermost code (handler / list filter) records what it reads through ClientSessionFromContext, GetSessionFromContext, GetServerFromContext, GetNotificationSender, the context-function values, session data, ctx.Err/Deadline and the values outer stages added; "+
+			"a (configuration x accessor x method) cell counts when all views of a fully observed request agreed (ctxview_cells_held, 6 x 9 x 8 = 432).",
 		[]string{
 			"the handler stage is observable only for tools/call and prompts/get; for ping and tools/list 'the handler ran' is judged by the answer",
 			"for every other method (off the dispatch table or unmodelled built-in) the core's answer is whatever a middleware-free server of the same kind and registrations answers (asked twice at start, time-of-day members removed); the property is that the innermost middleware sees an answer of that class and the client receives it after the modify-result stages",
@@ -945,6 +955,9 @@ func main() {
 			"scenario values: 'carrying the message' = the error message of the answer contains err.Error() of the middleware's error; a returned value is compared as the JSON value encoding/json makes of it; an envelope (JSONRPCResponse, JSONRPCError by value) may arrive wrapped as a result or as it is",
 			"scenario values: for nil / typed-nil results only 'answered once under the request's id' is judged; for values that cannot be encoded, a typed-nil *JSONRPCError and an error object without id nothing is judged (values_open_outcome/* counts what happened)",
 			"scenario values: the core's answer class for x-vendor/do and resources/list on the stateless / session-less kinds is taken from the reference answers of S-json / S-sse",
+			"scenario ctxview: 'the request's own session' = the one session object any stage of the request can reach through either accessor; where the peer knows the session id (stateful Streamable, legacy SSE) it must be that one; in stateless mode it is whatever per-request session the server made, the same in every view; ClientSessionFromContext (the accessor documented for middlewares) yielding nothing in a stage of a request that has a session is a violation, GetSessionFromContext yielding nothing is only counted",
+			"scenario ctxview: GetServerFromContext is judged for 'none or this server' and for agreement among the middlewares only: the tool manager adds the server handle for tool handlers by design (counted per stage kind in ctxview_server_handle/*)",
+			"scenario ctxview: the innermost code of resources/read and of the list methods is attributed to its request by the context-function value (their params carry nothing of the request)",
 			"scenario values, legacy SSE: an answer missing at the 30 s watchdog is a violation only when the request's trace is complete and a ping posted afterwards on the same session was answered",
 		})
 }
